@@ -243,7 +243,9 @@ def check_forming(repo, rep):
                   "stored 1m candles of that window; get_current_candle returns that last candle")
     t0 = 1_600_000_000_000 // (3 * MIN) * (3 * MIN)
     dna_mod, dna_cls = repo.module(DNA), repo.cls(DNA, "DynamicNumpyArray")
-    for n in range(0, 8):
+    for n, partial in [(n, False) for n in range(0, 8)] + [(n, True) for n in range(0, 8) if n % 3]:
+        # partial=True: the history in which an order got executed earlier inside the current window, so the 3m storage already
+        # holds a (by now outdated) partial candle for that window (_update_all_routes_a_partial_candle), then more minutes arrived
         for method in ("get_candles", "get_current_candle"):
             def mk(dec):
                 it = Interp(repo, stubs=W.base_stubs(), overrides={"jesse/config.py:config": {"app": {"considering_timeframes": ("1m", "3m")}, "env": {}}}, decisions=dec)
@@ -253,11 +255,14 @@ def check_forming(repo, rep):
                     it.call(it.getattr(arr1, "append"), [Arr([num(t0 + k * MIN)] + [A(f"{x}{k}") for x in "ochlv"])], {})
                 for w in range(n // 3):
                     it.call(it.getattr(arr3, "append"), [Arr([num(t0 + 3 * w * MIN)] + [A(f"L{w}_{j}") for j in range(1, 6)])], {})
+                if partial:
+                    it.call(it.getattr(arr3, "append"), [Arr([num(t0 + 3 * (n // 3) * MIN)] + [A(f"P{j}") for j in range(1, 6)])], {})
                 cs = W.obj_of(repo, CANDLES_STATE, "CandlesState", "store.candles",
                               {"storage": {"Sandbox-BTC-USDT-1m": arr1, "Sandbox-BTC-USDT-3m": arr3}, "are_all_initiated": False, "initiated_pairs": {}})
                 return it, lambda it: it.call(it.getattr(cs, method), ["Sandbox", "BTC-USDT", "3m"], {})
             for out in explore(mk, 32):
-                key = f"{method}|n={n}"
+                key = f"{method}|n={n}" + ("|after-partial" if partial else "")
+                hist = " after a partial candle of this window was stored at an order execution" if partial else ""
                 windows = (n + 2) // 3
                 rem = n % 3
                 if out.kind != "return":
@@ -275,9 +280,9 @@ def check_forming(repo, rep):
                 if method == "get_candles":
                     rows = v.rows if isinstance(v, Arr2) else None
                     if rows is None or len(rows) != windows:
-                        rep.violation(rid, "get_candles|one-per-window", f"get_candles returns {len(rows) if rows is not None else v!r} candles of 3m for {n} stored minutes (started windows: {windows})")
+                        rep.violation(rid, "get_candles|one-per-window", f"get_candles returns {len(rows) if rows is not None else v!r} candles of 3m for {n} stored minutes (started windows: {windows}){hist}")
                     elif forming is not None and not same_candle(rows[-1], forming):
-                        rep.violation(rid, "get_candles|forming", f"forming 3m candle with {rem} of 3 minutes is {rows[-1]!r}, expected {forming!r}")
+                        rep.violation(rid, "get_candles|forming" + ("|after-partial" if partial else ""), f"forming 3m candle with {rem} of 3 minutes{hist} is {rows[-1]!r}, expected {forming!r}")
                     elif rows is not None and windows:
                         tss = [int(r.items[0].const_value()) for r in rows]
                         if tss != [t0 + 3 * w * MIN for w in range(windows)]:
@@ -287,13 +292,13 @@ def check_forming(repo, rep):
                         pass
                     elif forming is not None:
                         if not same_candle(v, forming):
-                            rep.violation(rid, "get_current_candle|forming", f"get_current_candle with {rem} of 3 minutes is {v!r}, expected {forming!r}")
+                            rep.violation(rid, "get_current_candle|forming" + ("|after-partial" if partial else ""), f"get_current_candle with {rem} of 3 minutes{hist} is {v!r}, expected {forming!r}")
                     else:
                         lastw = n // 3 - 1
                         if not (isinstance(v, Arr) and v.items[1].same(A(f"L{lastw}_1"))):
                             rep.violation(rid, "get_current_candle|complete", f"get_current_candle on a complete window is {v!r}")
                 rep.instance(rid, key, {"stored_minutes": n, "result": repr(v)[:160]})
-    rep.floor(rid, 14)
+    rep.floor(rid, 22)
 
 
 def check_stored_1m(repo, rep):
@@ -353,6 +358,19 @@ def check_normalisation_visible(repo, rep):
     rep.floor(rid, 3)
 
 
+def check_chunk_divides_routes(repo, rep):
+    """the fast simulator stores at most one candle per route and chunk (_simulate_new_candles), so 'one candle per started
+    window' needs every route timeframe - trading AND data - to be a multiple of the chunk step"""
+    from props.c12 import check_chunk_step
+    check_chunk_step(repo, rep, rid="C07-R8")
+
+
+def check_chunks_inside_session(repo, rep):
+    """for every session length (not necessarily a multiple of the timeframe): the fast simulator's chunks partition the session"""
+    from props.c12 import check_chunks_partition
+    check_chunks_partition(repo, rep, rid="C07-R9")
+
+
 def run(repo: Repo, rep, tier: str):
     rep.exhaustive = True
     rep.assume("sessions start and warm-up lengths are aligned to every route timeframe (stated in the property)")
@@ -363,6 +381,8 @@ def run(repo: Repo, rep, tier: str):
     rep.guarded(check_forming, repo, rep)
     rep.guarded(check_stored_1m, repo, rep)
     rep.guarded(check_normalisation_visible, repo, rep)
+    rep.guarded(check_chunk_divides_routes, repo, rep)
+    rep.guarded(check_chunks_inside_session, repo, rep)
     rep.undecided_item("numerical equality of every stored candle at every observation time of a whole run (the per-site formulas and window arithmetic are decided)")
 
 
@@ -375,6 +395,6 @@ CLAIM = {
             "the partial-candle count is exact for every residue of every enumerated timeframe. (3) The two timeframe tables agree "
             "with enums.timeframes and with the minutes their labels spell. (4) CandlesState.get_candles/get_current_candle are "
             "interpreted for 0..7 stored minutes of a 3m route: one candle per started window, forming candle = aggregation of the "
-            "stored minutes of that window. Not decided: equality of every stored candle at every observation time of a whole run.",
+            "stored minutes of that window - also in the history where a partial candle of that window was stored at an earlier order execution (it must not be served once newer minutes arrived). (5) Fast simulator: the chunk step equals the gcd of all route timeframes (trading and data, 15 route sets), and its time loop, interpreted for session lengths 1..13 and steps 1/3/5, partitions the session into consecutive chunks that end exactly at the session length. Not decided: equality of every stored candle at every observation time of a whole run.",
     "note": "Trusted: interpreter semantics, numpy table model; windows assumed aligned as the property states.",
 }
